@@ -69,7 +69,13 @@ def check_text(rec, text, cfg, remove_penalised, viol, counts):
         return parsed
     avr = rec["confs"]["AVR"]
     by_label = {}
+    from .. import util as _u
+    _woo = _u.parse_cfg()["write_out_order"]
     for g in avr["groups"]:
+        # rows are written for the write-out types only, and a penalised group is left out when
+        # remove_penalised_group is on
+        if g["rtype"] not in _woo or (remove_penalised and g["ctg"] is not None):
+            continue
         by_label.setdefault(g["label"], []).append(g)
     # groups that share a printed label (same atom typed differently in two conformations,
     # two copies of a ligand) are printed in write-out order of their type, then list order
